@@ -601,4 +601,94 @@ theorem lineagesL_spec {d : Frac} (hd : d.WF) : ∀ (cs : List T) (prd : Frac), 
     congr 1
     by_cases hx : prd.toRat < d.toRat ∧ d.toRat ≤ qlen (some l') + prd.toRat <;> simp [hx] <;> omega
 
+/-! ## accepted trees: how far an age can be from a tip distance -/
+
+theorem height_le_heightL {k : T} : ∀ {cs : List T}, k ∈ cs → height k ≤ heightL cs
+  | [], h => by cases h
+  | c :: cs, h => by
+    simp only [heightL]
+    rcases List.mem_cons.mp h with rfl | h'
+    · exact Nat.le_max_left _ _
+    · exact Nat.le_trans (height_le_heightL h') (Nat.le_max_right _ _)
+
+theorem mem_tipDistsL {d : ℚ} : ∀ {cs : List T}, d ∈ tipDistsL cs → ∃ k ∈ cs, ∃ d0 ∈ tipDists k, d = d0 + qlen k.len
+  | [], h => by simp [tipDistsL] at h
+  | c :: cs, h => by
+    simp only [tipDistsL, List.mem_append, List.mem_map] at h
+    rcases h with ⟨d0, hd0, rfl⟩ | h
+    · exact ⟨c, List.mem_cons_self, d0, hd0, rfl⟩
+    · obtain ⟨k, hk, d0, hd0, he⟩ := mem_tipDistsL h
+      exact ⟨k, List.mem_cons_of_mem _ hk, d0, hd0, he⟩
+
+mutual
+/-- on a tree passing the local comparisons at precision `ε`, a node's first-child-chain age is within
+`height · ε` of its distance to every descendant tip -/
+theorem localOK_bound {ε : ℚ} (hε : 0 ≤ ε) : ∀ t : T, LocalOK ε t →
+    ∀ d ∈ tipDists t, |fageQ t - d| ≤ (height t : ℚ) * ε
+  | .node _ _ _ _ [], _, d, hd => by
+    simp only [tipDists, List.mem_singleton] at hd
+    simp [fageQ, height, hd]
+  | .node i x l s (c :: cs), h, d, hd => by
+    rw [tipDists_node] at hd
+    obtain ⟨k, hk, d0, hd0, rfl⟩ := mem_tipDistsL hd
+    have ihk := localOKL_bound hε (c :: cs) h.1 k hk d0 hd0
+    have hloc : |(fageQ c + qlen c.len) - (fageQ k + qlen k.len)| ≤ ε := by
+      rcases List.mem_cons.mp hk with rfl | hk'
+      · simpa using hε
+      · exact h.2 k hk'
+    have hh : (height k : ℚ) ≤ (heightL (c :: cs) : ℚ) := by exact_mod_cast height_le_heightL hk
+    have hmul : (height k : ℚ) * ε ≤ (heightL (c :: cs) : ℚ) * ε := mul_le_mul_of_nonneg_right hh hε
+    have e : fageQ (.node i x l s (c :: cs)) - (d0 + qlen k.len)
+        = ((fageQ c + qlen c.len) - (fageQ k + qlen k.len)) + (fageQ k - d0) := by simp only [fageQ]; ring
+    rw [e]
+    calc |((fageQ c + qlen c.len) - (fageQ k + qlen k.len)) + (fageQ k - d0)|
+        ≤ |(fageQ c + qlen c.len) - (fageQ k + qlen k.len)| + |fageQ k - d0| := abs_add_le _ _
+      _ ≤ ε + (height k : ℚ) * ε := add_le_add hloc ihk
+      _ ≤ (height (.node i x l s (c :: cs)) : ℚ) * ε := by
+          simp only [height]; push_cast; nlinarith
+theorem localOKL_bound {ε : ℚ} (hε : 0 ≤ ε) : ∀ cs : List T, LocalOKL ε cs →
+    ∀ k ∈ cs, ∀ d ∈ tipDists k, |fageQ k - d| ≤ (height k : ℚ) * ε
+  | [], _, k, hk, _, _ => by cases hk
+  | c :: cs, h, k, hk, d, hd => by
+    rcases List.mem_cons.mp hk with h1 | hk'
+    · have h1' := h1.symm
+      subst h1'
+      exact localOK_bound hε c h.1 d hd
+    · exact localOKL_bound hε cs h.2 k hk' d hd
+end
+
+mutual
+theorem LocalOK_nodes {ε : ℚ} : ∀ t : T, LocalOK ε t → ∀ v ∈ T.nodes t, LocalOK ε v
+  | .node i x l s cs, h, v, hv => by
+    simp only [T.nodes, List.mem_cons] at hv
+    rcases hv with rfl | hv'
+    · exact h
+    · have hL : LocalOKL ε cs := by
+        match cs, h with
+        | [], _ => simp [LocalOKL]
+        | c :: cs', h => exact h.1
+      exact LocalOKL_nodes cs hL v hv'
+theorem LocalOKL_nodes {ε : ℚ} : ∀ cs : List T, LocalOKL ε cs → ∀ v ∈ T.nodesL cs, LocalOK ε v
+  | [], _, v, hv => by simp [T.nodesL] at hv
+  | c :: cs, h, v, hv => by
+    simp only [T.nodesL, List.mem_append] at hv
+    rcases hv with hv | hv
+    · exact LocalOK_nodes c h.1 v hv
+    · exact LocalOKL_nodes cs h.2 v hv
+end
+
+theorem checking_nonneg {cfg : Cfg} {p : Frac} (hp : p.WF) (h : cfg.checking = some p) : 0 ≤ p.toRat := by
+  unfold Cfg.checking at h
+  split at h
+  · cases h
+  · split at h
+    · cases h
+    · split at h
+      · cases h
+      · rename_i q _ hlt
+        have hq : q = p := by simpa using h
+        subst hq
+        have := (Frac.lt_false_iff hp Frac.zero_wf).mp (by simpa using hlt)
+        simpa [Frac.zero_toRat] using this
+
 end DendroModel.C17.Aux
